@@ -7,7 +7,7 @@ import SqlizeModel.Impl.Render
 
 namespace Sqlize.Atoms
 
-def mysqlCanon (typ : String) : String :=
+def mysqlCanonBase (typ : String) : String :=
   let u := (toUpperAscii typ).replace ", " ","
   match u with
   | "INT" | "INTEGER" | "INT(11)" => "int(11)"
@@ -17,6 +17,10 @@ def mysqlCanon (typ : String) : String :=
   | "SMALLINT" | "SMALLINT(6)" => "smallint(6)"
   | "NUMERIC(10,2)" | "DECIMAL(10,2)" => "decimal(10,2)"
   | _ => if u.startsWith "ENUM" then "enum" ++ ((typ.drop 4).toString.replace ", " ",") else toLowerAscii typ
+
+/-- `FieldType.String()` prints the UNSIGNED attribute in upper case behind the lower-case base type -/
+def mysqlCanon (typ : String) : String :=
+  if (toUpperAscii typ).endsWith " UNSIGNED" then mysqlCanonBase (typ.dropEnd 9).toString ++ " UNSIGNED" else mysqlCanonBase typ
 
 def canonCol (d : Dialect) (c : ColDef) : ColDef :=
   match d with
